@@ -147,7 +147,9 @@ where
     t.push(("visit_skipnan", Res::Exact(vec![vc])));
     let idx_sum = a.indexed_fold_skipnan(0i128, |acc, (p, x)| acc + (flat_of::<D>(shape, p) as i128 + 1) * ((x.raw() * 2.0) as i128 + 1000));
     t.push(("indexed_fold_skipnan", Res::Exact(vec![idx_sum])));
-    let fa = a.fold_axis_skipnan(Axis(axis), 0i128, |acc, x| acc + (x.raw() * 2.0) as i128 + 1);
+    // positional digest: the per-axis fold is not documented to visit in arbitrary order, and a
+    // visiting order that depends on the memory layout makes the answer layout-dependent
+    let fa = a.fold_axis_skipnan(Axis(axis), 0i128, |acc, x| (acc * 31 + (x.raw() * 2.0) as i128 + 101) % 1_000_000_007);
     t.push(("fold_axis_skipnan", Res::Exact(fa.iter().cloned().chain(fa.shape().iter().map(|&s| s as i128)).collect())));
     if !has_nan {
         let r = SummaryStatisticsExt::mean(a);
